@@ -4,4 +4,5 @@ open SSVerif.S3file
 #print axioms C17_get_returns_min
 #print axioms C17_plan_decides
 #print axioms C17_header_in_bounds
+#print axioms C17_mdef_decides
 #print axioms Ledger.C17_reject_leaves_clean
